@@ -5,6 +5,7 @@ import (
 	"fmt"
 	"math/rand"
 	"reflect"
+	"time"
 
 	"google.golang.org/grpc"
 	"google.golang.org/grpc/codes"
@@ -263,12 +264,16 @@ func raceColl(w *World) {
 				if t.Flag(1, 3) {
 					lag = 2 + t.Choose(4) // a subscriber that falls behind before it reads: changes pile up (and are merged) in the library
 				}
+				sleepy := !bp && t.Flag(1, 3) // ... or that only comes back when everybody else is done or blocked
 				lists[i] = append(lists[i], func(task *Task) {
 					ctx, cancel := context.WithCancel(context.Background())
 					if pid {
 						ch := c.PullID(ctx, id, resource.WithBackpressure(bp), resource.WithUpdatesOnly(uo))
 						for r := 0; r < lag; r++ {
 							task.Yield("lag")
+						}
+						if sleepy {
+							task.Sleep(200 * time.Millisecond)
 						}
 						for r := 0; r < recvs; r++ {
 							task.Yield("recv")
@@ -290,6 +295,9 @@ func raceColl(w *World) {
 					ch := c.Pull(ctx, resource.WithBackpressure(bp), resource.WithUpdatesOnly(uo))
 					for r := 0; r < lag; r++ {
 						task.Yield("lag")
+					}
+					if sleepy {
+						task.Sleep(200 * time.Millisecond)
 					}
 					for r := 0; r < recvs; r++ {
 						task.Yield("recv")
